@@ -26,7 +26,7 @@ def truth : S → Truth
   | .num n => if n.toRat = 0 then .no else .yes
   | .blank => .no
   | .err c => .error c
-  | .text [] => .no       -- an empty cell as the code stores it inside ranges (`XLCell(addr, '')`)
+  | .text [] => .no       -- a cell holding the empty text (`set_cell_value(addr, '')`) counts as empty
   | .text _ => .undef
   | .date _ => .undef
 
@@ -65,7 +65,8 @@ def elems : V → List S
   | .s x => [x]
   | .arr rows => rows.flatten
 
-/-- an empty cell: blank, or the empty text by which the code represents a cell of a range that was never set -/
+/-- an empty cell: blank (also a never-set member of a referenced range: `XLCell(addr, None)`), or a cell
+    holding the empty text -/
 def isBlank : S → Bool
   | .blank => true
   | .text [] => true
